@@ -249,14 +249,17 @@ SPECS["C03"] = dict(
          "(random walk or PCT with 1..3 priority-change points; bounded-exhaustive with <= 2 pre-emptions for the smallest configurations); at quiescence (loop parked in epoll_wait, nothing ready) every accepted task ran exactly once on the loop thread, "
          "high-priority tasks of one producer in issue order; non-trivial = some producer's wake-up CAS lost (it found the flag already set); distinct = distinct schedule",
     assumptions=["every shared access of poller and queue goes through sync/atomic function calls or the eventfd/epoll system calls (the instrumented scheduling points)", "kqueue pollers cannot run on Linux"],
-    overlay=["verifx/c03", "pkg/netpoll/zz_verif_vsched_poll_opt.go"] + VSCHED_OVERLAY,
+    overlay=["verifx/c03", "pkg/netpoll/zz_verif_vsched_poll_opt.go", "verifx/fx", "verifx/vio"] + VSCHED_OVERLAY,
     instrument=POLLER_INSTR,
     jobs=[
         dict(name="c03a-" + tagname(tg), pkg="./verifx/c03", tags=tg, tests=[
             dict(id="scheduled", run="^TestC03WakeScheduled$", quick=dict(shards=6, checks=1200, timeout=400), thorough=dict(shards=8, checks=40000, timeout=3000, shrinktime=120)),
             dict(id="exhaustive", run="^TestC03WakeExhaustive$", rapid=False, quick=dict(shards=2, timeout=400), thorough=dict(shards=8, timeout=3000)),
         ]) for tg in ["", "poll_opt"]
-    ],
+    ] + [dict(name="c03b-" + tagname(tg), pkg="./verifx/c03", tags=tg, tests=[
+            dict(id="engine", run="^TestC03AsyncEngine$", quick=dict(shards=3, checks=120, timeout=600, shrinktime=30), thorough=dict(shards=4, checks=5000, timeout=3000, shrinktime=300)),
+            dict(id="bursts", run="^TestC03AsyncBursts$", quick=dict(shards=3, checks=40, timeout=600, shrinktime=20), thorough=dict(shards=4, checks=400, timeout=3000, shrinktime=60)),
+        ]) for tg in ["", "poll_opt,gc_opt"]],
 )
 
 FX_OVERLAY = ["verifx/fx", "verifx/vio"]
